@@ -693,6 +693,17 @@ def patch_me_future():
 
     init._verif = True
     common._Future.__init__ = init
+    orig_cancel = common._Future.cancel
+
+    def cancel(self):
+        r = orig_cancel(self)
+        if type(r) is not bool and S is not None and not S.aborting:
+            # C02: cancel() returns a bool (drive.py turns this entry into a verdict for the properties that state it)
+            S.log.append((getattr(me(), "name", "-"), "lib.cancel-nonbool", S.role(self, "f"), repr(r)[:40], S.now))
+        return r
+
+    cancel._verif = True
+    common._Future.cancel = cancel
 
     class CbList(list):
         """_Future._me_done_callbacks: the end of a delivery loop is a scheduling point (the list is reset only AFTER the loop,
